@@ -34,7 +34,7 @@ def run(cases, check, rule, bound, exhaustive, jobs=None, time_budget=None, chec
                 crashes.append(r["crash"])
                 continue
             if r.get("nontrivial"):
-                distinct.add(r["key"])
+                distinct.add(repr(r["key"]))
             if len(samples) < 3 and r.get("nontrivial") and r.get("sample") is not None:
                 samples.append(r["sample"])
             for f in r.get("failures", []):
